@@ -27,6 +27,11 @@ pub fn cache_pressure_image() -> (Vec<u8>, String) {
   for v in [0x40usize, 0x48, 0x50, 0x58, 0x60].iter() {
     image[*v] = 0xd9; // RETI
   }
+  // the long slide in bank 0: INC E from 0x1000 to 0x3EFF, RET at 0x3F00
+  for i in 0x1000..0x3f00usize {
+    image[i] = 0x1c;
+  }
+  image[0x3f00] = 0xc9;
   let mut a = Asm::new(0x0150);
   a.b(&[0xf3, 0x31, 0xfe, 0xff, 0x0e, 0x00]); // DI; LD SP,FFFE; LD C,0
   a.b(&[0x06, 0x01]); // LD B,1
@@ -55,6 +60,17 @@ pub fn cache_pressure_image() -> (Vec<u8>, String) {
   a.b(&[0x7c, 0xfe, 0x80]); // LD A,H; CP 0x80
   let d = (call_loop as i32 - (a.here() as i32 + 2)) as i8;
   a.b(&[0x20, d as u8]); // JR NZ,call_loop
+  // after every bank: one very long straight-line block (about 12 000 instructions, some
+  // 300 KiB of host code), entered one byte later each time so that it is a new block
+  // every time - sooner or later it is the block that finds the cache nearly full
+  a.b(&[0x78, 0x6f, 0x26, 0x10]); // LD A,B; LD L,A; LD H,0x10
+  {
+    let ret_at = a.here() + 5;
+    a.b(&[0x11, ret_at as u8, (ret_at >> 8) as u8]); // LD DE,ret
+    a.b(&[0xd5]); // PUSH DE
+    a.b(&[0xe9]); // JP HL
+    assert_eq!(a.here(), ret_at);
+  }
   a.b(&[0x04, 0x78, 0xfe, 0x80]); // INC B; LD A,B; CP 0x80
   let d2 = (bank_loop as i32 - (a.here() as i32 + 2)) as i8;
   a.b(&[0x20, d2 as u8]); // JR NZ,bank_loop
